@@ -23,6 +23,15 @@ CHECKS = {
  "C10": ("exploration", "exhaustive enumeration of ordered operand-shape pairs x operators x result holders against numpy",
          "All ordered pairs of operand kinds (number, scalar element, vectors, matrices up to 3x3 / 4x4, named vectors/matrices with equal and different names) x {+,-,*,/,dot} x holder {converter, flow, stock}, and all aggregates: accepted equations equal numpy entry by entry with exactly the expected shape; mismatched shapes/names must raise.",
          "numpy is the oracle; element-wise operators require equal shapes (no broadcasting between arrays); arr_size judged for vectors only.", "§4 C10"),
+ "C11": ("model_checking", "explicit-state BFS over event histories on the real Model+SimultaneousScheduler with a due-step reference, every reached history flushed step by step",
+         "All create/delete(live+dead)/reconfigure/send/send-twice/step histories to depth 3 (quick) / 4 (thorough) for dt in 1, .5, .25, .1, each flushed until all events are past due: handler invocations equal the due events of live receivers, by id, exactly once, in send order.",
+         "Events are sent between steps; due step computed in exact rationals; order judged only among events of one send step and receiver.", "§4 C11"),
+ "C12": ("model_checking", "exhaustive enumeration of the run lattice (start, stop, dt, population, collect_data, driver, mid-run scripts); call log compared with the generated sequence",
+         "Complete lattice of runs: the call log of instrumented Model/Agent/DataCollector equals begin_round, (handle_events, act) per live agent in creation order, end_round, one statistics record - for every round and step, for Model.run, Model.run_step sequences and hybrid runs through bptk.run_scenarios, including callbacks that create/delete an agent mid-run.",
+         "Agents are created/deleted only from begin_round/end_round; integer start/stop, dt with integer 1/dt.", "§4 C12"),
+ "C13": ("exploration", "bounded-exhaustive enumeration of populations x state scripts x selections x return formats against brute-force aggregates of end_round snapshots",
+         "Every multiset population of up to 3 (thorough: 3 complete, 4 restricted) scripted agents: Model.statistics() and run_scenarios for every selection of agents/states/properties/aggregate types in df, dict and json equal count/sum/min/max/mean over the snapshot, zero where a state was empty.",
+         "Homogeneous property sets per type; snapshot taken in end_round is trusted.", "§4 C13"),
  "C14": ("model_checking", "explicit-state BFS over operation histories on the real Model, dict reference compared on every transition",
          "All create/delete/configure/reset/set_state histories up to depth 5 (quick) / 7 (thorough) over two agent types; every registry query compared with a dict id->(type,state) after every transition.",
          "Agents created through factories whose name equals agent_type; ids offered to delete range over all ids ever issued (live and dead).", "§4 C14"),
